@@ -18,7 +18,7 @@
                        i.e. the operational spec used for conformance is neither
                        stronger nor weaker than the declarative statement of C18.
      maxlen  bound on the number of calls
-     fields  sequence of [name, kind ("pos" / "tag"), dt, classes]              *)
+     fields  sequence of [name, kind ("pos" / "tag" / "newtag"), dt, classes]   *)
 EXTENDS Fields, Json, IOUtils, TLC
 
 Params == JsonDeserialize(IOEnv.FIELDS_FILE)
@@ -44,7 +44,9 @@ AllOps(i, s) ==
         THEN {Op("delete", FN(i), "-", t) : t \in (IF s.has THEN {"orig", "clone"} ELSE {"orig"})}
         ELSE {})
 
-InitSt(i, k, conn) == Init0(k, conn, [n \in {FN(i)} |-> Field(Flds[i].dt, "valid", 1)])
+\* kind "newtag": the tag does not exist yet, the first Set creates it
+InitCls(i) == IF Flds[i].kind = "newtag" THEN "absent" ELSE "valid"
+InitSt(i, k, conn) == Init0(k, conn, [n \in {FN(i)} |-> Field(Flds[i].dt, InitCls(i), 1)])
 
 Ev(op, res, mark, chg) == [op |-> op, res |-> res, mark |-> mark, chg |-> chg]
 
@@ -98,7 +100,9 @@ LastOut == [st |-> st', res |-> hist'[Len(hist')].res, mark |-> hist'[Len(hist')
 Statements == [][Mode = "props" => AllStatements(st, hist'[Len(hist')].op, LastOut)]_vars
 
 \* the catalogue offers exactly the value classes the datatype has
-CatalogueOK == \A i \in DOMAIN Flds : ClsOf(i) = ClassesOf(Flds[i].dt)
+CatalogueOK == \A i \in DOMAIN Flds :
+  IF Flds[i].kind = "newtag" THEN "valid" \in ClsOf(i) /\ ClsOf(i) \subseteq ClassesOf(Flds[i].dt)
+  ELSE ClsOf(i) = ClassesOf(Flds[i].dt)
 ASSUME CatalogueOK
 
 -----------------------------------------------------------------------------
@@ -123,6 +127,8 @@ CallOK(h, lvl, j, cur) ==
      IF e.op.c = "valid" THEN e.res = "ok" /\ e.chg                          \* never rejected
      ELSE IF lvl = 3 THEN e.res = "Error" /\ ~e.chg                          \* at the assignment
      ELSE (e.res = "ok" /\ e.chg) \/ (e.res = "Error" /\ ~e.chg)
+  ELSE IF cur = "absent" THEN                                               \* nothing assigned yet
+       IF e.op.k \in {"write", "vfield"} THEN ~e.mark ELSE e.res = "ok" /\ ~e.mark
   ELSE IF cur = "valid" THEN e.res = "ok" /\ ~e.mark                         \* never rejected later
   ELSE IF e.op.k \in {"validate", "vfield"} THEN e.res = "Error"             \* every level
   ELSE IF e.op.k \in {"write", "str"} THEN
@@ -130,7 +136,7 @@ CallOK(h, lvl, j, cur) ==
   ELSE TRUE                                                                  \* get
 RECURSIVE Poss(_, _, _)
 Poss(h, lvl, j) ==
-  IF j = 1 THEN {"valid"}
+  IF j = 1 THEN {InitCls(fld)}
   ELSE LET e == h[j - 1]
            Q == {c \in Poss(h, lvl, j - 1) : CallOK(h, lvl, j - 1, c)} IN
        IF Q = {} THEN {}
